@@ -846,6 +846,7 @@ func cmdRun(args []string) {
 			panic(err)
 		}
 		w := c.World
+		w.RetagWorld() // cases pinned before scalars got their type tag
 		mono, err := fakesvc.NewNet(monolith(w))
 		if err != nil {
 			em.emit(map[string]interface{}{"ev": "HarnessError", "what": err.Error()})
